@@ -255,7 +255,81 @@ func c18Concealment(c *Case, req M, props map[string]interface{}, t trans, scrip
 	return vs
 }
 
+// c18Levels: with explicit per-step thresholds the new criterion gets exactly one threshold per step, and the series runs
+// in the method's own direction (satisfaction lowers its expectations step by step, aspect elimination raises them).
+func c18Levels(c *Case, tag string, req M, mparams map[string]interface{}, newID string, cands []string, g float64, scripted bool) []Violation {
+	method := asS(req["preferenceFunction"])
+	rmp := asM(req["methodParameters"])
+	if (method != "satisfactionHeuristic" && method != "aspectEliminationHeuristic") || asS(rmp["function"]) != "thresholds" {
+		return nil
+	}
+	steps := asL(asM(rmp["params"])["thresholds"])
+	got := asL(asM(mparams["params"])["thresholds"])
+	if len(got) != len(steps) {
+		return []Violation{viol(c, "C18/"+tag+"/levels-count", "%d thresholds reported for the new criterion %s, the method has %d steps (%v)", len(got), newID, len(steps), mparams)}
+	}
+	var vals []float64
+	for k, e := range got {
+		v, ok := asM(e)[newID]
+		if !ok || len(asM(e)) != 1 || math.IsNaN(asF(v)) || math.IsInf(asF(v), 0) {
+			return []Violation{viol(c, "C18/"+tag+"/levels-entry", "step %d: reported thresholds %v do not carry exactly one finite value for %s", k, e, newID)}
+		}
+		vals = append(vals, asF(v))
+	}
+	for k := 1; k < len(vals); k++ {
+		if (method == "satisfactionHeuristic" && vals[k] > vals[k-1]) || (method == "aspectEliminationHeuristic" && vals[k] < vals[k-1]) {
+			return []Violation{viol(c, "C18/"+tag+"/levels-direction", "%s: thresholds %v of the new criterion %s run against the method's direction", method, vals, newID)}
+		}
+	}
+	if len(asL(req["biases"])) != 1 {
+		return nil
+	}
+	// the multiset is {g_k x reference threshold of step k}
+	okAny := false
+	for _, rc := range cands {
+		var want []float64
+		for _, st := range steps {
+			rv, has := asM(st)[rc]
+			if !has {
+				return nil
+			}
+			want = append(want, asF(rv))
+		}
+		// every value lies between 0 and its reference, so the k-th smallest value lies between the k-th smallest of
+		// min(reference,0) and the k-th smallest of max(reference,0)
+		sv, sw, hi, lo := append([]float64{}, vals...), []float64{}, []float64{}, []float64{}
+		for _, r := range want {
+			sw = append(sw, g*r)
+			hi = append(hi, math.Max(r, 0))
+			lo = append(lo, math.Min(r, 0))
+		}
+		sort.Float64s(sv)
+		sort.Float64s(sw)
+		sort.Float64s(hi)
+		sort.Float64s(lo)
+		fits := true
+		for k := range sv {
+			if scripted && !near(sv[k], sw[k]) {
+				fits = false
+			}
+			if !scripted && (sv[k] > hi[k] || sv[k] < lo[k]) {
+				fits = false
+			}
+		}
+		if fits {
+			okAny = true
+		}
+	}
+	if !okAny {
+		return []Violation{viol(c, "C18/"+tag+"/levels-values", "thresholds %v of the new criterion are not fractions (g=%v) of a reference criterion's thresholds (candidates %v, steps %v)", vals, g, cands, steps)}
+	}
+	return nil
+}
+
 func c18Weight(c *Case, tag string, req M, mparams map[string]interface{}, newID string, cands []string, g float64, scripted bool) []Violation {
+	if vs := c18Levels(c, tag, req, mparams, newID, cands, g, scripted); len(vs) > 0 {
+		return vs
+	}
 	method := asS(req["preferenceFunction"])
 	w, ok := addedWeight(method, mparams, newID)
 	if !ok {
